@@ -1019,6 +1019,75 @@ def generate(repo):
     return "\n".join(L) + "\n"
 
 
+def parse_pure_data(repo):
+    """DataParser::pure_data: the ORDER of its tests, and the functions that call it
+    -> (tests, callers) ; tests in ("failFalse", "eofTrue"), the final `char j; if (istr >> j) return false; else return true;` is checked textually"""
+    d = Path(repo) / "lib" / "gnu_gama" / "xml"
+    files = [(f, strip_comments((d / f).read_text())) for f in FILES]
+    fns = collect_functions(files)
+    pd = [f for f in fns if f.name == "pure_data"]
+    if len(pd) != 1:
+        fail("DataParser::pure_data not found or overloaded")
+    body = norm(pd[0].body)
+    tail = "char j;if(istr>>j)return false;else return true;"
+    if not body.endswith(tail):
+        fail("DataParser::pure_data: the final trailing-junk test no longer has the modelled shape: " + body[-120:])
+    head = body[:-len(tail)]
+    tests = []
+    for st in [x for x in head.split(";") if x]:
+        if st == "if(istr.fail())return false":
+            tests.append("failFalse")
+        elif st == "if(istr.eof())return true":
+            tests.append("eofTrue")
+        else:
+            fail("DataParser::pure_data: unrecognised statement: " + st[:100])
+    callers = []
+    for f in fns:
+        if f.name == "pure_data":
+            continue
+        for m in re.finditer(r"\bpure_data\s*\(", f.body):
+            e = match_close(f.body, m.end() - 1, "(", ")")
+            arg = norm(f.body[m.end():e])
+            parts = arg.split(">>")
+            if not re.fullmatch(r"\w+", parts[0]) or not all(re.fullmatch(r"[\w.\[\]]+(->[\w.\[\]]+)*", x) for x in parts[1:]):
+                fail(f"DataParser::{f.name}: unrecognised argument of pure_data: {arg[:80]}")
+            callers.append((f.name, f.kind, len(parts) - 1))
+    return tests, callers
+
+
+def unguarded_extractions(repo):
+    """handlers that extract numbers from a stringstream WITHOUT calling pure_data (only the failure of `>>` is tested there)"""
+    d = Path(repo) / "lib" / "gnu_gama" / "xml"
+    fns = collect_functions([(f, strip_comments((d / f).read_text())) for f in FILES])
+    return sorted(f.name for f in fns if f.name != "pure_data" and re.search(r"\bi?str\s*>>", f.body) and "pure_data" not in f.body)
+
+
+def generate_pure_data(repo):
+    tests, callers = parse_pure_data(repo)
+    L = ["/-",
+         "  GENERATED by tools/gen/c11_dataparser.py from lib/gnu_gama/xml/dataparser*.cpp of the current working tree.",
+         "  DO NOT EDIT: regenerated (and the proofs re-checked) on every run.",
+         "-/",
+         "namespace Gama.PD",
+         "",
+         "/-- the early returns of `DataParser::pure_data(std::istream&)` IN SOURCE ORDER:",
+         "    `failFalse` = `if (istr.fail()) return false;`   `eofTrue` = `if (istr.eof()) return true;`",
+         "    (then, checked textually: `char j; if (istr >> j) return false; else return true;`) -/",
+         "inductive PdTest where | failFalse | eofTrue",
+         "  deriving DecidableEq, Repr",
+         "def pureDataTests : List PdTest := [" + ", ".join("." + t for t in tests) + "]",
+         "",
+         "/-- every call of `pure_data`: (function, kind of handler, number of `>>` extractions inside the argument; 0 = the stream",
+         "    is passed after extractions made before) -/",
+         "def pureDataCallers : List (String × String × Nat) := ["]
+    L.append(",\n".join(f'  ("{n}", "{k}", {c})' for n, k, c in callers))
+    L += ["]", "",
+          "/-- handlers that test only the failure of `istr >> …` and never call `pure_data` (trailing junk is not refused there) -/",
+          "def unguardedExtractions : List String := [" + ", ".join(f'"{n}"' for n in unguarded_extractions(repo)) + "]",
+          "", "end Gama.PD", ""]
+    return "\n".join(L)
+
+
 def write_if_changed(path, text):
     path = Path(path)
     if path.exists() and path.read_text() == text:
@@ -1030,7 +1099,9 @@ def write_if_changed(path, text):
 
 def run(repo, verif):
     text = generate(repo)
-    return write_if_changed(Path(verif) / "lean" / "Gama" / "Gen" / "DataParserAutomaton.lean", text)
+    a = write_if_changed(Path(verif) / "lean" / "Gama" / "Gen" / "DataParserAutomaton.lean", text)
+    b = write_if_changed(Path(verif) / "lean" / "Gama" / "Gen" / "PureData.lean", generate_pure_data(repo))
+    return a or b
 
 
 if __name__ == "__main__":
